@@ -88,10 +88,14 @@ def write_evidence(prop, tier, seed, infos, wall, meta, violations, known_lines)
         },
         "assumptions": meta.get("assumptions", []),
     }
-    os.makedirs(os.path.join(VERIF, "evidence"), exist_ok=True)
-    tmp = os.path.join(VERIF, "evidence", prop + ".json.tmp")
+    # runs against a scratch copy of the repository (VP_REPO, used for mutation testing)
+    # must not overwrite the evidence of the real tree
+    evdir = os.path.join(VERIF, "evidence") if runner.REPO == "/repo" else \
+        os.path.join(runner.WORK, "evidence-scratch")
+    os.makedirs(evdir, exist_ok=True)
+    tmp = os.path.join(evdir, prop + ".json.tmp")
     json.dump(ev, open(tmp, "w"), indent=1)
-    os.replace(tmp, os.path.join(VERIF, "evidence", prop + ".json"))
+    os.replace(tmp, os.path.join(evdir, prop + ".json"))
 
 
 def check_property(prop, tier, seed, only=None):
